@@ -65,7 +65,7 @@ def apply_contract(interp, c, clo, args, kwargs):
             alts.append((cls, _truth(interp, interp.call(fact, [p], {})) if fact is not None else z3.BoolVal(True)))
     finally:
         ctx.opaque_specs -= 1
-    i = ctx.choose([a[1] for a in alts])
+    i = ctx.choose([a[1] for a in alts], labels=["contract:" + (a[0] if isinstance(a[0], str) else a[0].__name__) for a in alts])
     kind = alts[i][0]
     if kind == "return":
         if c.result is not None:
